@@ -384,8 +384,15 @@ impl<'a, R: Resolve, U: Updater> Cloner for Importer<'a, R, U> {
     fn clone_rcref<T: DeepClone + ObjectWrite + DataSize>(&mut self, old: &RcRef<T>) -> Result<RcRef<T>> {
         let old_ref = old.get_ref().get_inner();
         if let Some(&new_ref) = self.map.get(&old_ref) {
-            let arc = self.rcrefs.get(&new_ref).unwrap().clone().downcast()?;
-            return Ok(RcRef::new(new_ref, arc));
+            if let Some(any) = self.rcrefs.get(&new_ref) {
+                let arc = any.clone().downcast()?;
+                return Ok(RcRef::new(new_ref, arc));
+            }
+            // the object was copied before through clone_ref / clone_plainref, which keep no typed value:
+            // build the typed value for the existing copy instead of unwrapping a missing entry
+            let new = Shared::new(old.data().deep_clone(self)?);
+            self.rcrefs.insert(new_ref, AnySync::new(new.clone()));
+            return Ok(RcRef::new(new_ref, new));
         }
 
         let new = old.data().deep_clone(self)?;
